@@ -1,7 +1,7 @@
 CONSTANTS K = 2
   Families = {"TRI", "QUAD"}
-  MaxTri = 10
-  MaxQuad = 6
+  MaxTri = 12
+  MaxQuad = 7
   FwdAll = TRUE
   Emit = TRUE
 INIT Init
